@@ -15,6 +15,14 @@ def fuzz(pkg, run, t="45s"):
     return {"pkg": pkg, "run": run, "kind": "fuzz", "tiers": ("thorough",), "fuzztime": {"thorough": t}}
 
 CHECKS = {
+    "C18": {
+        "level": "exploration",
+        "assumptions": ["frozen clock (steps whole ms + 1us)", "three-valued oracle: window phase, quantile convention, HDR precision and whether a completion while tripped restarts the check period are treated as unknown rather than guessed", "the metrics windows are the defaults (10 x 1 s counters, 6 x 10 s histogram)"],
+        "jobs": [
+            rapid("props/c18", "^TestC18_Condition$", 2500, 25000, shards_t=10),
+            fuzz("props/c18", "FuzzC18_Expr", "60s"),
+        ],
+    },
     "C12": {
         "level": "exploration",
         "assumptions": ["frozen clock, steps whole ms + 1us against whole-ms durations (no knife-edge equality)", "comparisons within 1e-9 relative of the ramp are not asserted (the code computes the ramp in float64)"],
@@ -97,6 +105,11 @@ CHECKS = {
 
 # Texts for MANIFEST.json (level text, trusted base, technique) per claimed property.
 MANIFEST_TEXT = {
+    "C18": {
+        "level": "Generated condition expressions (grammar with and/or nesting, all six comparisons, the three metric functions, minimal parentheses) and generated histories of arrivals, completions with status/latency and clock advances over several trip/recovery cycles are checked against an independent three-valued evaluator over the oracle's own record of the responses completed since the last trip: at every definite evaluation point with a definite value the breaker trips iff the value is true; at definite non-evaluation points nothing may change; side-effect counters equal the observed transitions. A coverage-guided byte-level target decodes bytes into expression + history and runs the same oracle (thorough). Exploration.",
+        "note": "Trusts the independent evaluator (Kleene logic over window/quantile hypotheses) and the gate/clock harness; unknown evaluations are counted, not asserted.",
+        "technique": "grammar-based property testing (rapid) + native fuzzing against an independent three-valued reference evaluator",
+    },
     "C12": {
         "level": "Generated recovery scenarios (up to 3 trip/recovery cycles per case; idle gaps before recovery starts; bursts, trickles and strides during recovery; good or failing re-admitted requests) under a frozen clock; after every request of a recovery the two-sided ramp condition of the statement is checked in exact integer arithmetic, plus: no early return to standby, first request after the period passes and the state is standby, on-standby/on-tripped effects once per transition, full shield after a re-trip. Exploration of bounded schedules.",
         "note": "Trusts the gate/clock harness; the 1e-9 boundary band around the ramp is counted (class boundary-not-asserted) and not asserted.",
